@@ -650,8 +650,8 @@ func TestVerifC01Upload(t *testing.T) {
 				}
 			}
 			seg := segs[x.Choose(len(segs))]
+			x.Logf("upload %v writes=%s", &c01Upload{l: sp.l, enc: sp.enc, seg: seg}, c01WritesSumm(seg))
 			u := c01DoUpload(x, sp.l, sp.enc, seg)
-			x.Logf("%v writes=%s", u, c01WritesSumm(seg))
 			j := c01Open(x, u)
 			c := int(boson.ChunkSize)
 			c01ReadSeq(x, u, j, 0, c, "readback-sequential")
@@ -783,8 +783,8 @@ func TestVerifC01ReadProg(t *testing.T) {
 			seg := segs[x.Choose(len(segs))]
 			progs := c01Progs(sp.l)
 			pr := progs[x.Choose(len(progs))]
+			x.Logf("%v: %v", &c01Upload{l: sp.l, enc: sp.enc, seg: seg}, pr)
 			u := c01Fixture(x, sp.l, sp.enc, seg)
-			x.Logf("%v: %v", u, pr)
 			j := c01Open(x, u)
 			switch pr.kind {
 			case "seq":
